@@ -11,7 +11,7 @@ from props import C11 as base
 MODEL = "clientreq"
 MODULE = "Model.ClientReq"
 THEOREMS = ["C20_new_requests_refused", "C20_new_operations_fail", "C20_second_close", "C20_metadata_cleared",
-            "C20_pending_end", "C20_closed_means", "C20_closed_forever", "C20_no_connect_no_write_after_close", "C20_close_pending_only_when_closed",
+            "C20_pending_end", "C20_closed_means", "C20_pending_requests_fail", "C20_pending_operations_end", "C20_closed_forever", "C20_no_connect_no_write_after_close", "C20_close_pending_only_when_closed",
             "C20_close_awaits_every_closing_client", "C20_close_fires_not_before", "C20_close_pending_means_closing", "C20_close_fires_last",
             "C20_close_fires_once"]
 WHICH = ("C20",)
@@ -189,6 +189,33 @@ def probe_f_c20_2(ck):
     return first, second
 
 
+def probe_f_c20_3(ck):
+    """F-C20-3 (fixed in /repo 33a3ade): _load_topic_partitions() waiting in its retry back-off at close() must fail at once and
+    leave no DelayedCall behind.  Witness replayed on the code every run; a recurrence is a VIOLATION."""
+    import struct
+    import simnet
+    from twisted.python.failure import Failure
+    vlib.import_repo()
+    from afkak.client import KafkaClient
+    log = []
+    clock = simnet.SimClock(log)
+    net = simnet.SimNet(log)
+    c = KafkaClient("h001:9093", reactor=clock, endpoint_factory=net, retry_policy=lambda f: 0.44, timeout=5000,
+                    enable_protocol_version_discovery=False)
+    res = []
+    c._load_topic_partitions("t0").addBoth(res.append)
+    tr = net.pending()[0].accept()
+    body = struct.pack(">ii", 1, 0) + struct.pack(">i", 1) + struct.pack(">h", 5) + L._s16("t0") + struct.pack(">i", 0)
+    tr.deliver(simnet.frame(body))
+    armed_before = len(clock.getDelayedCalls())
+    c.close()
+    observed = (not res) or bool(clock.getDelayedCalls()) or not isinstance(res[0], Failure)
+    ck.finding("F-C20-3", observed and armed_before == 1,
+               "_load_topic_partitions() in its retry back-off at close(): pending=%r, DelayedCalls left=%d" % (not res, len(clock.getDelayedCalls())),
+               {"kind": "finding witness", "script": "props/C20.py:probe_f_c20_3", "replay_op": "none"})
+    ck.hist("F-C20-3_probe_reached_backoff", 1 if armed_before == 1 else 0)
+
+
 def run(ck):
     vlib.import_repo()
     ck.build([MODEL])
@@ -229,6 +256,7 @@ def run(ck):
 
     # --- residual finding F-C20-2: the witnesses of the _refuted theorems replayed on the code, plus what the monitors met
     probe_f_c20_2(ck)
+    probe_f_c20_3(ck)
     ck.hist("F-C20-2_occurrences_in_generated_cases", len(findings))
 
     # --- the REAL public entry points (produce/fetch/offset*, the group code's JoinGroup with its 35 s minimum, heartbeats,
